@@ -67,10 +67,10 @@ def judge(a, source: str) -> tuple[list[tuple[str, str]], dict]:
 
 
 @st.composite
-def cases(draw):
+def cases(draw, exclude: frozenset = frozenset()):
 	from vf import syngen
 	rnd = draw(st.randoms(use_true_random=False))
-	src, stats = syngen.gen_module(rnd, rnd.choice(['mixed', 'mixed', 'expr']), friendly=True)
+	src, stats = syngen.gen_module(rnd, rnd.choice(['mixed', 'mixed', 'expr']), friendly=True, exclude=exclude)
 	return {'source': src, 'stats': stats}
 
 
@@ -101,7 +101,7 @@ def shard(ctx: core.Ctx) -> None:
 		for sig, detail in fails:
 			ctx.fail(sig, detail + f'\n  source={case["source"]!r}', {'kind': 'module', 'source': case['source']})
 
-	core.drive(ctx, cases(), body, total=ctx.budget['modules'], chunk=50)
+	core.drive(ctx, cases(frozenset(ctx.excluded)), body, total=ctx.budget['modules'], chunk=50)
 
 
 def replay(case: dict) -> list[tuple[str, str]]:
